@@ -31,15 +31,21 @@ MonOneOwner(q) ==
                        /\ {u \in UsersOf(q) : q.userCode[u] = c} = {q.codeOwner[c]}
   /\ \A u \in UsersOf(q) : q.userCode[u] # None => Exists(q, q.userCode[u])
 
-(* ownership of an existing code changes only when the proposed new owner accepts; a code comes
-   into existence owned by the signer who created it; codes never disappear *)
-MonOwnerChange(p, a, ok, q) ==
+(* the pending proposal of a code as the SPECIFICATION tracks it: set by an accepted Transfer, cleared
+   by an accepted Cancel or Accept (in the specification's state: next owner different from owner) *)
+Pending(s) ==
+  [c \in CodesOf(s) |-> IF Exists(s, c) /\ s.codeNext[c] # s.codeOwner[c] THEN s.codeNext[c] ELSE None]
+
+(* ownership of an existing code changes only when the proposed new owner accepts - `pend` is the
+   proposal according to the history of accepted operations (not the account's own next_owner field);
+   a code comes into existence owned by the signer who created it; codes never disappear *)
+MonOwnerChange(p, pend, a, ok, q) ==
   \A c \in CodesOf(p) :
     q.codeOwner[c] # p.codeOwner[c] =>
       IF Exists(p, c)
       THEN /\ ok /\ a.op = "accept" /\ a.c = c
-           /\ a.u = p.codeNext[c]            \* the signer is the proposed owner ...
-           /\ a.u # p.codeOwner[c]           \* ... a genuine proposal, not the owner itself
+           /\ pend[c] # None /\ a.u = pend[c]   \* the signer is the proposed owner ...
+           /\ a.u # p.codeOwner[c]              \* ... a genuine proposal, not the owner itself
            /\ q.codeOwner[c] = a.u
       ELSE /\ ok /\ a.op = "create" /\ a.c = c /\ q.codeOwner[c] = a.u
 
